@@ -23,6 +23,9 @@ enum Pending {
     Hold { persona: u8, left: u8 },
     /// Passed the token to the target as `persona`; waiting to see whether it is taken.
     Passed { persona: u8, tries: u8 },
+    /// After a token between two personas was thrown into the station's GAP-poll wait: offer the
+    /// token to the station once as the same sender, then watch.
+    OfferOnce { persona: u8 },
     Spont,
 }
 
@@ -40,6 +43,9 @@ pub struct Adversary {
     pub coop_actions: u64,
     pub deviations: u64,
     until: u64,
+    interject: Option<u8>,
+    pub interjections: u64,
+    pub single_offers: u64,
 }
 
 impl Adversary {
@@ -59,6 +65,9 @@ impl Adversary {
             coop_actions: 0,
             deviations: 0,
             until: cfg.until_us * w.baud,
+            interject: None,
+            interjections: 0,
+            single_offers: 0,
         }
     }
 
@@ -274,6 +283,18 @@ impl Adversary {
                         };
                     }
                 }
+                // a GAP poll of the station (to anybody): now and then a token between two other
+                // stations is thrown into the wait, and its sender then offers the station the
+                // token exactly once
+                Frame::Data { sa, .. } if f.is_fdl_status_request() && *sa == ts && self.cfg.addrs.len() >= 2 && self.rng.chance(1, 10) => {
+                    let p = self.persona();
+                    let q = self.persona();
+                    self.deviations += 1;
+                    self.interject = Some(p);
+                    self.interjections += 1;
+                    let d = self.rng.range(12, (self.slot_bits / 2).max(13));
+                    return self.schedule(w, d, Pending::Send(wire::encode(&Frame::Token { da: q, sa: p })));
+                }
                 // token for one of my personas
                 Frame::Token { da, sa } if self.cfg.addrs.contains(da) && *sa == ts => {
                     let persona = *da;
@@ -305,6 +326,10 @@ impl Adversary {
             Pending::Hold { persona, left } => {
                 let d = self.rng.range(34, 80);
                 self.schedule(w, d, Pending::Hold { persona, left })
+            }
+            Pending::OfferOnce { persona } => {
+                let d = self.rng.range(34, self.slot_bits * 2);
+                self.schedule(w, d, Pending::OfferOnce { persona })
             }
             Pending::Passed { persona, tries } => {
                 if heard.is_some() {
@@ -352,8 +377,17 @@ impl Adversary {
                 if self.script_pos < self.cfg.script.len() {
                     self.script_pos += 1;
                 }
-                self.pending = Pending::Spont;
+                self.pending = match self.interject.take() {
+                    Some(persona) => Pending::OfferOnce { persona },
+                    None => Pending::Spont,
+                };
                 send(self, bytes)
+            }
+            Pending::OfferOnce { persona } => {
+                // one offer, no repetition: a station that takes it accepts a first offer
+                self.pending = Pending::Passed { persona, tries: 3 };
+                self.single_offers += 1;
+                send(self, wire::encode(&Frame::Token { da: ts, sa: persona }))
             }
             Pending::Hold { persona, left } => {
                 if left > 0 {
